@@ -2544,6 +2544,21 @@ def rule_replace_registers_slices(repo):
     return rule_sites(repo)
 
 
+def rule_index_names(repo):
+    """which list element a block writes decides which net it drives: an index name is resolved like Python does (block locals,
+    closure, module globals).  Shared with C02 (R-C02-index-scope)."""
+    from rules.c02 import rule_index_scope
+    return rule_index_scope(repo)
+
+
+def rule_late_signals_registered(repo):
+    """_floodfill_nets starts from all_signals: a port created after elaboration (add_value_port, replace_component) that is
+    not registered there never gets a net, however it is connected.  Shared with C16 (R-C16-registry: every post-elaboration
+    creation site registers the signal in the registry that the later passes enumerate)."""
+    from rules.c16 import rule_registry
+    return rule_registry(repo)
+
+
 def rule_replace_filters(repo):
     """the filter that separates outside connections from the removed subtree's own ones excludes removed signals, method
     ports and constants.  Shared with C15 (R-C15-keys)."""
@@ -2553,7 +2568,7 @@ def rule_replace_filters(repo):
 
 RULES = [rule_symmetric, rule_const, rule_nodes, rule_flood, rule_seed, rule_unique, rule_propagate, rule_residence, rule_netblock, rule_overlap,
          rule_pending_flag, rule_ancestors, rule_collectors, rule_ifc_symmetric, rule_net_ordering, rule_writer_via_helpers,
-         rule_names_denote_storage, rule_replace_keeps_nets, rule_replace_filters, rule_byname, rule_nets_readonly, rule_scc_watch, rule_tick_settles, rule_const_value_fits, rule_replace_registers_slices]
+         rule_names_denote_storage, rule_replace_keeps_nets, rule_replace_filters, rule_byname, rule_nets_readonly, rule_scc_watch, rule_tick_settles, rule_const_value_fits, rule_replace_registers_slices, rule_index_names, rule_late_signals_registered]
 
 
 # ---------------------------------------------------------------------------------------------------------------
